@@ -23,6 +23,15 @@ looked up (`align_variable_names_with_convention`, `move_staticmethod_static_sco
 def memberGuarded (preserve : List String) (cls : String) (candidates : List String) : List String :=
   candidates.filter (fun n => !(preserve.contains n || preserve.contains (cls ++ "." ++ n)))
 
+/-- the guard of `delete_pointless_statements` for an effect-free statement that binds `_` (an assignment to `_`, a function or
+class named `_`), met in a body owned by class `cls` (`none`: the module, a function, a compound statement): the statement is
+kept iff `_` is preserved, or the module reads or deletes `_` somewhere, or `Class._` is preserved (since 995e49d) -/
+def keepsUnderscore (preserve : List String) (underscoreRead : Bool) (cls : Option String) : Bool :=
+  preserve.contains "_" || underscoreRead ||
+    (match cls with
+     | some c => preserve.contains (c ++ "." ++ "_")
+     | none => false)
+
 /-- `filename_preserve[f]`: union of the used names of all preserved files except the file's own namespace -/
 def filePreserve (used : List (String × List String)) (ns : String) : List String :=
   (used.filter (fun p => p.1 != ns)).flatMap (·.2)
